@@ -41,6 +41,7 @@ struct MachineT : Machine {
     Settings<Q> settings;
     KKTT kkt;
     bool inited = false;
+    bool fact_ok = false;   // KKT::solve's precondition: the last regularize_and_factorize succeeded
     static constexpr bool keepY = (BE == 1 || BE == 3);
     static constexpr bool keepZ = (BE == 1 || BE == 2);
     static constexpr bool isDense = (BE == 0);
@@ -167,6 +168,7 @@ struct MachineT : Machine {
         else if (c == "kkt.factor") {
             bool r = t.flag();
             bool ok = kkt.regularize_and_factorize(r);
+            fact_ok = ok;
             std::cout << "factor " << (ok ? 1 : 0) << "\n";
         }
         else if (c == "kkt.solve" || c == "kkt.mult") {
@@ -175,6 +177,8 @@ struct MachineT : Machine {
             DVec x = t.vec(n), y = t.vec(p), z = t.vec(m), z_lb = headvec(t, data.n_lb), z_ub = headvec(t, data.n_ub);
             DVec s = t.vec(m), s_lb = headvec(t, data.n_lb), s_ub = headvec(t, data.n_ub);
             DVec ox(n), oy(p), oz(m), ozl(n), ozu(n), os(m), osl(n), osu(n);
+            // the solver never calls solve() after a failed factorisation (it retries or gives up): nothing to compare
+            if (solve && !fact_ok) { std::cout << "solve none\n"; return; }
             if (solve) kkt.solve(x, y, z, z_lb, z_ub, s, s_lb, s_ub, ox, oy, oz, ozl, ozu, os, osl, osu, r);
             else kkt.multiply(x, y, z, z_lb, z_ub, s, s_lb, s_ub, ox, oy, oz, ozl, ozu, os, osl, osu);
             const char* pre = solve ? "d" : "r";
@@ -189,6 +193,7 @@ struct MachineT : Machine {
             DVec s = t.vec(m), s_lb = headvec(t, data.n_lb), s_ub = headvec(t, data.n_ub);
             DVec ox(n), oy(p), oz(m), ozl(n), ozu(n), os(m), osl(n), osu(n);
             DVec bx(n), by(p), bz(m), bzl(n), bzu(n), bs(m), bsl(n), bsu(n);
+            if (!fact_ok) { std::cout << "resid none\n"; return; }
             kkt.solve(x, y, z, z_lb, z_ub, s, s_lb, s_ub, ox, oy, oz, ozl, ozu, os, osl, osu, r);
             kkt.multiply(ox, oy, oz, ozl, ozu, os, osl, osu, bx, by, bz, bzl, bzu, bs, bsl, bsu);
             bx -= x; by -= y; bz -= z; bs -= s;
